@@ -46,4 +46,808 @@ def toI32 (q : Rat) : Int :=
   let t : Int := if q ≥ 0 then q.floor else - (-q).floor
   if t > 2147483647 then 2147483647 else if t < -2147483648 then -2147483648 else t
 
+/-! ## Lemmas about the soft-float (moved here from `Wee/Proofs/EvalLemmas.lean`)
+
+Core-only proofs (no Mathlib).  They are on the model side because the `@[csimp]` fast paths at the
+end of this file (which must be in scope when `Wee/Model/Eval.lean` is compiled) rest on them. -/
+
+/-! ### oddness -/
+
+theorem round32_neg (q : Rat) : round32 (-q) = - round32 q := by
+  unfold round32
+  by_cases h0 : q = 0
+  · subst h0; simp
+  · have h0' : ¬ (-q = 0) := by
+      intro h; apply h0; have := congrArg (fun x => -x) h; simpa [Rat.neg_neg] using this
+    simp only [h0, h0', if_false]
+    by_cases hneg : q < 0
+    · have : ¬ (-q < 0) := by
+        intro h
+        have h1 : -(0:Rat) < -(-q) := Rat.neg_lt_neg h
+        rw [Rat.neg_neg] at h1
+        have h2 : (0:Rat) < q := by simpa using h1
+        exact Rat.lt_irrefl (Std.lt_trans hneg h2)
+      simp [hneg, this, Rat.neg_neg]
+    · have hle : 0 ≤ q := Rat.not_lt.1 hneg
+      have hpos : 0 < q := Rat.lt_iff_le_and_ne.2 ⟨hle, fun h => h0 h.symm⟩
+      have : -q < 0 := by
+        have h1 : -q < -(0:Rat) := Rat.neg_lt_neg hpos
+        simpa using h1
+      simp [hneg, this]
+
+/-! ## `pow2`, `ilog2` -/
+
+theorem pow2_nat (n : Nat) : pow2 (n : Int) = ((2 ^ n : Nat) : Rat) := by
+  unfold pow2; simp
+
+theorem pow2_pos (k : Int) : 0 < pow2 k := by
+  unfold pow2
+  split
+  · exact Rat.natCast_pos.2 (Nat.pow_pos (by decide))
+  · have h : (0:Rat) < ((2 ^ (-k).toNat : Nat) : Rat) := Rat.natCast_pos.2 (Nat.pow_pos (by decide))
+    rw [Rat.div_def, Rat.one_mul]; exact Rat.inv_pos.2 h
+
+theorem pow2_succ (k : Int) : pow2 (k + 1) = 2 * pow2 k := by
+  unfold pow2
+  by_cases h : k ≥ 0
+  · have h1 : k + 1 ≥ 0 := by omega
+    have : (k + 1).toNat = k.toNat + 1 := by omega
+    simp only [h, h1, if_true, this, Nat.pow_succ, Rat.natCast_mul]
+    grind
+  · by_cases h1 : k + 1 ≥ 0
+    · have hk : k = -1 := by omega
+      subst hk; simp; grind
+    · have : (-k).toNat = (-(k+1)).toNat + 1 := by omega
+      simp only [h, h1, if_false, this, Nat.pow_succ, Rat.natCast_mul]
+      have hp : (0:Rat) < ((2 ^ (-(k + 1)).toNat : Nat) : Rat) := Rat.natCast_pos.2 (Nat.pow_pos (by decide))
+      generalize ((2 ^ (-(k + 1)).toNat : Nat) : Rat) = x at hp
+      simp
+      grind
+
+/-- `pow2 (k + n) = 2^n * pow2 k` -/
+theorem pow2_add_nat (k : Int) (n : Nat) : pow2 (k + n) = ((2 ^ n : Nat) : Rat) * pow2 k := by
+  induction n with
+  | zero => simp
+  | succ n ih =>
+    have : k + ((n + 1 : Nat) : Int) = (k + n) + 1 := by omega
+    rw [this, pow2_succ, ih, Nat.pow_succ, Rat.natCast_mul]; grind
+
+theorem pow2_le_of_le {k j : Int} (h : k ≤ j) : pow2 k ≤ pow2 j := by
+  obtain ⟨n, rfl⟩ : ∃ n : Nat, j = k + n := ⟨(j - k).toNat, by omega⟩
+  rw [pow2_add_nat]
+  have h1 : (1 : Rat) ≤ ((2 ^ n : Nat) : Rat) := by
+    have : (1 : Nat) ≤ 2 ^ n := Nat.pow_pos (by decide)
+    simpa using Rat.natCast_le_natCast.2 this
+  have := Rat.mul_le_mul_of_nonneg_right h1 (Rat.le_of_lt (pow2_pos k))
+  simpa using this
+
+theorem pow2_lt_of_lt {k j : Int} (h : k < j) : pow2 k < pow2 j := by
+  have h1 : pow2 (k + 1) ≤ pow2 j := pow2_le_of_le (by omega)
+  have h2 := pow2_pos k
+  rw [pow2_succ] at h1
+  grind
+
+theorem lt_of_pow2_lt {k j : Int} (h : pow2 k < pow2 j) : k < j := by
+  apply Decidable.byContradiction; intro hn
+  have := pow2_le_of_le (Int.not_lt.1 hn)
+  grind
+
+/-- specification of `ilog2` -/
+theorem ilog2_spec {q : Rat} (hq : 0 < q) : pow2 (ilog2 q) ≤ q ∧ q < pow2 (ilog2 q + 1) := by
+  have hnum : 0 < q.num := by
+    have := (Rat.lt_iff 0 q).1 hq; simpa using this
+  have hden : 0 < q.den := Nat.pos_of_ne_zero q.den_nz
+  -- n, d as naturals
+  obtain ⟨n, hn⟩ : ∃ n : Nat, q.num = n := ⟨q.num.toNat, by omega⟩
+  have hn0 : n ≠ 0 := by omega
+  have hqd : q * (q.den : Rat) = (n : Rat) := by
+    have h1 : q = (q.num : Rat) / (q.den : Rat) := by
+      rw [← Rat.mkRat_eq_div, Rat.mkRat_self]
+    have h2 : (q.den : Rat) ≠ 0 := by simpa using q.den_nz
+    have h3 := Rat.div_mul_cancel (a := (q.num : Rat)) h2
+    rw [← h1, hn] at h3; exact h3
+  -- log2 bounds
+  have hn1 := Nat.log2_self_le hn0
+  have hn2 := Nat.lt_log2_self (n := n)
+  have hd1 := Nat.log2_self_le q.den_nz
+  have hd2 := Nat.lt_log2_self (n := q.den)
+  have e1 : q.num.toNat = n := by omega
+  generalize hln : n.log2 = ln at *
+  generalize hld : q.den.log2 = ld at *
+  -- cast to Rat
+  have cn1 : ((2 ^ ln : Nat) : Rat) ≤ (n : Rat) := Rat.natCast_le_natCast.2 hn1
+  have cn2 : (n : Rat) < ((2 ^ (ln + 1) : Nat) : Rat) := Rat.natCast_lt_natCast.2 hn2
+  have cd1 : ((2 ^ ld : Nat) : Rat) ≤ (q.den : Rat) := Rat.natCast_le_natCast.2 hd1
+  have cd2 : (q.den : Rat) < ((2 ^ (ld + 1) : Nat) : Rat) := Rat.natCast_lt_natCast.2 hd2
+  have pd : (0 : Rat) < ((2 ^ ld : Nat) : Rat) := Rat.natCast_pos.2 (Nat.pow_pos (by decide))
+  -- pow2 (ln - ld) * 2^ld = 2^ln
+  have key : pow2 ((ln : Int) - (ld : Int)) * ((2 ^ ld : Nat) : Rat) = ((2 ^ ln : Nat) : Rat) := by
+    have := pow2_add_nat ((ln : Int) - (ld : Int)) ld
+    rw [show (ln : Int) - (ld : Int) + (ld : Int) = (ln : Int) by omega, pow2_nat] at this
+    rw [this]; grind
+  -- q < pow2 (e + 1)
+  have hup : q < pow2 ((ln : Int) - (ld : Int) + 1) := by
+    apply Rat.lt_of_mul_lt_mul_right (c := ((2 ^ ld : Nat) : Rat)) _ (Rat.le_of_lt pd)
+    rw [pow2_succ, Rat.mul_assoc, key]
+    have h1 : q * ((2 ^ ld : Nat) : Rat) ≤ q * (q.den : Rat) :=
+      Rat.mul_le_mul_of_nonneg_left cd1 (Rat.le_of_lt hq)
+    rw [Nat.pow_succ, Rat.natCast_mul] at cn2
+    grind
+  -- pow2 (e - 1) ≤ q
+  have hlo : pow2 ((ln : Int) - (ld : Int) - 1) ≤ q := by
+    apply Rat.le_of_mul_le_mul_right (c := ((2 ^ (ld+1) : Nat) : Rat)) _ (Rat.natCast_pos.2 (Nat.pow_pos (by decide)))
+    have h0 : pow2 ((ln : Int) - (ld : Int)) = 2 * pow2 ((ln : Int) - (ld : Int) - 1) := by
+      rw [← pow2_succ]; congr 1; omega
+    have h1 : q * (q.den : Rat) ≤ q * ((2 ^ (ld + 1) : Nat) : Rat) :=
+      Rat.mul_le_mul_of_nonneg_left (Rat.le_of_lt cd2) (Rat.le_of_lt hq)
+    rw [Nat.pow_succ, Rat.natCast_mul] at h1 ⊢
+    rw [h0] at key
+    rw [hqd] at h1
+    clear hup cd1 cd2 hd1 hd2 hn1 hn2 cn2 hqd h0 pd
+    generalize pow2 ((ln : Int) - (ld : Int) - 1) = P at *
+    generalize ((2 ^ ld : Nat) : Rat) = A at *
+    generalize ((2 ^ ln : Nat) : Rat) = L at *
+    have h2 : ((2 : Nat) : Rat) = 2 := by simp
+    rw [h2] at h1 ⊢
+    have : P * (A * 2) = L := by grind
+    grind
+  unfold ilog2
+  simp only [e1, hln, hld]
+  split
+  · rename_i h
+    refine ⟨hlo, ?_⟩
+    rw [show (ln : Int) - (ld : Int) - 1 + 1 = (ln : Int) - (ld : Int) by omega]; exact h
+  · rename_i h
+    exact ⟨Rat.not_lt.1 h, hup⟩
+/-! ## rounding never crosses a small integer -/
+
+theorem rne_cases (x : Rat) : rne x = x.floor ∨ (rne x = x.floor + 1 ∧ (x.floor : Rat) < x) := by
+  unfold rne
+  simp only
+  split
+  · left; rfl
+  · rename_i h
+    have hx : (x.floor : Rat) < x := by grind
+    split
+    · right; exact ⟨rfl, hx⟩
+    · split
+      · left; rfl
+      · right; exact ⟨rfl, hx⟩
+
+theorem rne_le {x : Rat} {M : Int} (h : x ≤ (M : Rat)) : rne x ≤ M := by
+  have hf : x.floor ≤ M := by
+    have := Rat.floor_monotone h; rwa [Rat.floor_intCast] at this
+  rcases rne_cases x with h1 | ⟨h1, h2⟩
+  · omega
+  · rw [h1]
+    have : x.floor < M := by
+      apply Decidable.byContradiction; intro hn
+      have he : x.floor = M := by omega
+      rw [he] at h2; grind
+    omega
+
+theorem le_rne {x : Rat} {M : Int} (h : (M : Rat) ≤ x) : M ≤ rne x := by
+  have hf : M ≤ x.floor := Rat.le_floor_iff.2 h
+  rcases rne_cases x with h1 | ⟨h1, _⟩ <;> omega
+
+theorem rne_intCast (M : Int) : rne (M : Rat) = M := by
+  have h1 := rne_le (x := (M : Rat)) (M := M) Rat.le_refl
+  have h2 := le_rne (x := (M : Rat)) (M := M) Rat.le_refl
+  omega
+
+/-- the `ulp` used by `roundPos q` -/
+def ulpOf (q : Rat) : Rat := pow2 ((if ilog2 q < -126 then -126 else ilog2 q) - 23)
+
+theorem roundPos_def (q : Rat) : roundPos q = ((rne (q / ulpOf q) : Int) : Rat) * ulpOf q := rfl
+
+theorem ulpOf_pos (q : Rat) : 0 < ulpOf q := pow2_pos _
+
+/-- below `2^24` the unit in the last place divides 1 -/
+theorem ulpOf_dvd_one {q : Rat} (hq : 0 < q) (h24 : q < 16777216) :
+    ∃ j : Nat, ulpOf q * ((2 ^ j : Nat) : Rat) = 1 := by
+  have hs := ilog2_spec hq
+  have h1 : pow2 (ilog2 q) < pow2 24 := by
+    have : pow2 24 = 16777216 := by
+      have := pow2_nat 24; simpa using this
+    rw [this]; grind
+  have h2 : ilog2 q < 24 := lt_of_pow2_lt h1
+  unfold ulpOf
+  generalize he : (if ilog2 q < -126 then -126 else ilog2 q) = e'
+  have he' : e' ≤ 23 := by split at he <;> omega
+  refine ⟨(23 - e').toNat, ?_⟩
+  have := pow2_add_nat (e' - 23) (23 - e').toNat
+  rw [show e' - 23 + ((23 - e').toNat : Int) = ((0 : Nat) : Int) by omega, pow2_nat] at this
+  rw [Rat.mul_comm, ← this]; simp
+
+/-- rounding never crosses an integer below `2^24` (upper side) -/
+theorem roundPos_le {q : Rat} {N : Nat} (hq : 0 < q) (hN : N < 16777216) (h : q ≤ (N : Rat)) :
+    roundPos q ≤ (N : Rat) := by
+  have h24 : q < 16777216 := by
+    have : (N : Rat) < ((16777216 : Nat) : Rat) := Rat.natCast_lt_natCast.2 hN
+    simp at this; grind
+  obtain ⟨j, hj⟩ := ulpOf_dvd_one hq h24
+  have hu := ulpOf_pos q
+  rw [roundPos_def]
+  generalize ulpOf q = u at *
+  have hinv : u⁻¹ = ((2 ^ j : Nat) : Rat) := Rat.inv_eq_of_mul_eq_one hj
+  have hp : (0 : Rat) ≤ ((2 ^ j : Nat) : Rat) := Rat.natCast_nonneg
+  have hM : q / u ≤ (((N * 2 ^ j : Nat) : Int) : Rat) := by
+    rw [Rat.div_def, hinv, Rat.intCast_natCast, Rat.natCast_mul]
+    exact Rat.mul_le_mul_of_nonneg_right h hp
+  have h1 := Rat.intCast_le_intCast.2 (rne_le hM)
+  have h2 := Rat.mul_le_mul_of_nonneg_right h1 (Rat.le_of_lt hu)
+  rw [Rat.intCast_natCast, Rat.natCast_mul] at h2
+  generalize ((2 ^ j : Nat) : Rat) = P at *
+  rw [Rat.mul_assoc, Rat.mul_comm P u, hj, Rat.mul_one] at h2
+  exact h2
+
+/-- rounding never crosses an integer below `2^24` (lower side) -/
+theorem le_roundPos {q : Rat} {N : Nat} (hq : 0 < q) (h24 : q < 16777216) (h : (N : Rat) ≤ q) :
+    (N : Rat) ≤ roundPos q := by
+  obtain ⟨j, hj⟩ := ulpOf_dvd_one hq h24
+  have hu := ulpOf_pos q
+  rw [roundPos_def]
+  generalize ulpOf q = u at *
+  have hinv : u⁻¹ = ((2 ^ j : Nat) : Rat) := Rat.inv_eq_of_mul_eq_one hj
+  have hp : (0 : Rat) ≤ ((2 ^ j : Nat) : Rat) := Rat.natCast_nonneg
+  have hM : (((N * 2 ^ j : Nat) : Int) : Rat) ≤ q / u := by
+    rw [Rat.div_def, hinv, Rat.intCast_natCast, Rat.natCast_mul]
+    exact Rat.mul_le_mul_of_nonneg_right h hp
+  have h1 := Rat.intCast_le_intCast.2 (le_rne hM)
+  have h2 := Rat.mul_le_mul_of_nonneg_right h1 (Rat.le_of_lt hu)
+  rw [Rat.intCast_natCast, Rat.natCast_mul] at h2
+  generalize ((2 ^ j : Nat) : Rat) = P at *
+  rw [Rat.mul_assoc, Rat.mul_comm P u, hj, Rat.mul_one] at h2
+  exact h2
+
+theorem roundPos_nonneg {q : Rat} (hq : 0 < q) : 0 ≤ roundPos q := by
+  rw [roundPos_def]
+  have hu := ulpOf_pos q
+  have hx : ((0 : Int) : Rat) ≤ q / ulpOf q := by
+    rw [Rat.div_def]
+    exact Rat.le_of_lt (Rat.mul_pos hq (Rat.inv_pos.2 hu))
+  have := Rat.intCast_le_intCast.2 (le_rne hx)
+  exact Rat.mul_nonneg (by simpa using this) (Rat.le_of_lt hu)
+
+/-- **integer-bound lemma**: `|q| ≤ N < 2^24` ⇒ `|round32 q| ≤ N` -/
+theorem round32_bounds {q : Rat} {N : Nat} (hN : N < 16777216) (hl : -(N : Rat) ≤ q) (hu : q ≤ (N : Rat)) :
+    -(N : Rat) ≤ round32 q ∧ round32 q ≤ (N : Rat) := by
+  have hN0 : (0 : Rat) ≤ (N : Rat) := Rat.natCast_nonneg
+  unfold round32
+  split
+  · grind
+  · rename_i h0
+    split
+    · rename_i hneg
+      have hp : 0 < -q := by grind
+      have h1 := roundPos_le hp hN (by grind)
+      have h2 := roundPos_nonneg hp
+      grind
+    · rename_i hneg
+      have hp : 0 < q := by grind
+      have h1 := roundPos_le hp hN hu
+      have h2 := roundPos_nonneg hp
+      grind
+
+/-- integers below `2^24` are representable -/
+theorem round32_natCast {N : Nat} (hN : N < 16777216) : round32 (N : Rat) = (N : Rat) := by
+  unfold round32
+  split
+  · rename_i h; rw [h]
+  · rename_i h0
+    have hN0 : (0 : Rat) ≤ (N : Rat) := Rat.natCast_nonneg
+    have hp : 0 < (N : Rat) := by grind
+    have hneg : ¬ (N : Rat) < 0 := by grind
+    rw [if_neg hneg]
+    have h24 : (N : Rat) < 16777216 := by
+      have : (N : Rat) < ((16777216 : Nat) : Rat) := Rat.natCast_lt_natCast.2 hN
+      simpa using this
+    have h1 := roundPos_le hp hN Rat.le_refl
+    have h2 := le_roundPos hp h24 Rat.le_refl
+    exact Rat.le_antisymm h1 h2
+
+theorem round32_intCast {i : Int} (h1 : -16777216 < i) (h2 : i < 16777216) : round32 (i : Rat) = (i : Rat) := by
+  by_cases h : 0 ≤ i
+  · obtain ⟨n, rfl⟩ : ∃ n : Nat, i = n := ⟨i.toNat, by omega⟩
+    exact round32_natCast (by omega)
+  · obtain ⟨n, rfl⟩ : ∃ n : Nat, i = -(n : Int) := ⟨(-i).toNat, by omega⟩
+    rw [Rat.intCast_neg, round32_neg]
+    congr 1
+    exact round32_natCast (by omega)
+
 end Wee.F32
+
+/-! ## Compiled fast paths (`@[csimp]`)
+
+Nothing below changes a definition: each `@[csimp]` theorem proves that a model function is EQUAL to
+a faster implementation, and only the code generator uses it (the kernel, `decide` and every proof
+keep seeing the definitions above).
+
+`round32 (N / D)` is computed on the integers `N`, `D` (not necessarily coprime): `ilog2` by
+comparing shifted integers, `rne` by one integer division, the result `m · 2^u` assembled without a
+gcd.  `mul`, `add`, `sub`, `div`, `ofInt` feed it the un-normalised numerator and denominator, so
+no `Rat` arithmetic (two gcds per operation, each through GMP) is executed at all. -/
+namespace Wee.F32.Fast
+open Wee.F32
+
+/-- powers of two below `2^128`, computed once (`Nat.pow` and `Nat.shiftLeft` go through GMP even for
+small results; `Nat.mul` does not) -/
+def twoPowTab : Array Nat := (Array.range 128).map (2 ^ ·)
+
+@[inline] def twoPow (k : Nat) : Nat := if h : k < twoPowTab.size then twoPowTab[k] else 2 ^ k
+
+theorem twoPow_eq (k : Nat) : twoPow k = 2 ^ k := by
+  unfold twoPow
+  split
+  · simp [twoPowTab]
+  · rfl
+
+/-- `n <<< k` by a multiplication -/
+@[inline] def shl (n k : Nat) : Nat := n * twoPow k
+
+theorem shl_eq (n k : Nat) : shl n k = n <<< k := by
+  rw [shl, twoPow_eq, Nat.shiftLeft_eq]
+
+/-- `m / 2^k` in lowest terms without a gcd -/
+def mkDyadic : Nat → Nat → Rat
+  | m, 0 => (m : Rat)
+  | m, k+1 =>
+    if h : m % 2 = 0 then mkDyadic (m / 2) k
+    else ⟨(m : Int), twoPow (k+1), by rw [twoPow_eq]; exact Nat.ne_of_gt (Nat.pow_pos (by decide)), by
+      show Nat.Coprime m (twoPow (k+1))
+      rw [twoPow_eq]
+      apply Nat.Coprime.pow_right
+      unfold Nat.Coprime
+      rw [Nat.gcd_comm, Nat.gcd_rec]
+      have : m % 2 = 1 := by omega
+      rw [this]; decide⟩
+
+theorem mkDyadic_eq (m k : Nat) : mkDyadic m k = (m : Rat) / ((2 ^ k : Nat) : Rat) := by
+  induction k generalizing m with
+  | zero => simp [mkDyadic]; grind
+  | succ k ih =>
+    unfold mkDyadic
+    split
+    · rename_i h
+      rw [ih]
+      have hm : m = 2 * (m / 2) := by omega
+      have hp : (0 : Rat) < ((2 ^ k : Nat) : Rat) := Rat.natCast_pos.2 (Nat.pow_pos (by decide))
+      conv => rhs; rw [hm]
+      rw [Nat.pow_succ, Rat.natCast_mul, Rat.natCast_mul]
+      generalize ((2 ^ k : Nat) : Rat) = P at *
+      generalize ((m / 2 : Nat) : Rat) = M
+      have : ((2 : Nat) : Rat) = 2 := by simp
+      rw [this]
+      grind
+    · rw [Rat.mk_eq_divInt, Rat.divInt_eq_div, Rat.intCast_natCast, Rat.intCast_natCast, twoPow_eq]
+
+/-- `rne (N / D)` on naturals -/
+@[inline] def rneND (N D : Nat) : Nat :=
+  let f := N / D
+  let r := N % D
+  if 2 * r < D then f else if 2 * r > D then f + 1 else if f % 2 = 0 then f else f + 1
+
+theorem rne_eq_rneND {x : Rat} {N D : Nat} (hD : 0 < D) (hx : x * (D : Rat) = (N : Rat)) :
+    rne x = (rneND N D : Int) := by
+  have hDq : (0 : Rat) < (D : Rat) := Rat.natCast_pos.2 hD
+  have hdm : D * (N / D) + N % D = N := Nat.div_add_mod N D
+  have hr : N % D < D := Nat.mod_lt _ hD
+  generalize hf : N / D = f at *
+  generalize hrr : N % D = r at *
+  have hN : (N : Rat) = (D : Rat) * (f : Rat) + (r : Rat) := by
+    rw [← hdm, Rat.natCast_add, Rat.natCast_mul]
+  have hrq : (r : Rat) < (D : Rat) := Rat.natCast_lt_natCast.2 hr
+  have hr0 : (0 : Rat) ≤ (r : Rat) := Rat.natCast_nonneg
+  -- floor
+  have hfl : x.floor = (f : Int) := by
+    have h1 : ((f : Int) : Rat) ≤ x := by
+      apply Rat.le_of_mul_le_mul_right (c := (D : Rat)) _ hDq
+      rw [hx, hN, Rat.intCast_natCast]; grind
+    have h2 : x < (((f : Int) + 1 : Int) : Rat) := by
+      apply Rat.lt_of_mul_lt_mul_right (c := (D : Rat)) _ (Rat.le_of_lt hDq)
+      rw [hx, hN, Rat.intCast_add, Rat.intCast_natCast]; grind
+    have a := Rat.le_floor_iff.2 h1
+    have b := Rat.floor_lt_iff.2 h2
+    omega
+  -- fractional part
+  have hfrac : (x - ((f : Int) : Rat)) * (D : Rat) = (r : Rat) := by
+    rw [Rat.intCast_natCast]; grind
+  unfold rne rneND
+  simp only [hfl, hf, hrr]
+  generalize x - ((f : Int) : Rat) = y at hfrac
+  have h2r : ((2 * r : Nat) : Rat) = 2 * (r : Rat) := by rw [Rat.natCast_mul]; simp
+  have key1 : y < 1/2 ↔ 2 * r < D := by
+    rw [← Rat.natCast_lt_natCast, h2r, ← hfrac]
+    constructor
+    · intro h; have := Rat.mul_lt_mul_of_pos_right h hDq; grind
+    · intro h; apply Rat.lt_of_mul_lt_mul_right (c := (D : Rat)) _ (Rat.le_of_lt hDq); grind
+  have key2 : y > 1/2 ↔ 2 * r > D := by
+    show 1/2 < y ↔ D < 2 * r
+    rw [← Rat.natCast_lt_natCast, h2r, ← hfrac]
+    constructor
+    · intro h; have := Rat.mul_lt_mul_of_pos_right h hDq; grind
+    · intro h; apply Rat.lt_of_mul_lt_mul_right (c := (D : Rat)) _ (Rat.le_of_lt hDq); grind
+  simp only [key1, key2]
+  split
+  · rfl
+  · split
+    · simp
+    · have : ((f : Int) % 2 = 0) ↔ (f % 2 = 0) := by omega
+      simp only [this]
+      split <;> simp
+
+
+theorem rneND_mul_right (N D c : Nat) (hc : 0 < c) : rneND (N * c) (D * c) = rneND N D := by
+  unfold rneND
+  simp only [Nat.mul_div_mul_right _ _ hc, Nat.mul_mod_mul_right]
+  have e1 : (2 * (N % D * c) < D * c) ↔ (2 * (N % D) < D) := by
+    rw [← Nat.mul_assoc]; exact Nat.mul_lt_mul_right hc
+  have e2 : (2 * (N % D * c) > D * c) ↔ (2 * (N % D) > D) := by
+    show D * c < 2 * (N % D * c) ↔ D < 2 * (N % D)
+    rw [← Nat.mul_assoc]; exact Nat.mul_lt_mul_right hc
+  simp only [e1, e2]
+
+/-- `n / d < 2^k` on integers -/
+@[inline] def ltPow2 (n d : Nat) (k : Int) : Bool :=
+  if k ≥ 0 then n < shl d k.toNat else shl n (-k).toNat < d
+
+/-- `pow2 k` as a quotient of naturals -/
+theorem pow2_split (k : Int) :
+    pow2 k * (((if k ≥ 0 then 1 else 2 ^ (-k).toNat : Nat)) : Rat) = (((if k ≥ 0 then 2 ^ k.toNat else 1 : Nat)) : Rat) := by
+  by_cases h : k ≥ 0
+  · simp only [h, if_true]; unfold pow2; simp [h]
+  · simp only [h, if_false]
+    have := pow2_add_nat k (-k).toNat
+    rw [show k + ((-k).toNat : Int) = ((0 : Nat) : Int) by omega, pow2_nat] at this
+    rw [Rat.mul_comm, ← this]
+
+theorem lt_pow2_iff {q : Rat} {n d : Nat} (hd0 : 0 < d) (hqd : q * (d : Rat) = (n : Rat)) (k : Int) :
+    decide (q < pow2 k) = ltPow2 n d k := by
+  have hs := pow2_split k
+  have hd : (0 : Rat) < (d : Rat) := Rat.natCast_pos.2 hd0
+  unfold ltPow2
+  simp only [shl_eq]
+  by_cases h : k ≥ 0
+  · simp only [h, if_true] at hs ⊢
+    rw [show ((1 : Nat) : Rat) = 1 by simp, Rat.mul_one] at hs
+    rw [Nat.shiftLeft_eq, hs]
+    apply decide_eq_decide.2
+    rw [← Rat.natCast_lt_natCast (a := n), Rat.natCast_mul, ← hqd]
+    constructor
+    · intro h1; rw [Rat.mul_comm (d : Rat)]; exact Rat.mul_lt_mul_of_pos_right h1 hd
+    · intro h1; rw [Rat.mul_comm (d : Rat)] at h1; exact Rat.lt_of_mul_lt_mul_right h1 (Rat.le_of_lt hd)
+  · simp only [h, if_false] at hs ⊢
+    rw [show ((1 : Nat) : Rat) = 1 by simp] at hs
+    rw [Nat.shiftLeft_eq]
+    apply decide_eq_decide.2
+    have hp : (0 : Rat) < ((2 ^ (-k).toNat : Nat) : Rat) := Rat.natCast_pos.2 (Nat.pow_pos (by decide))
+    rw [← Rat.natCast_lt_natCast (a := n * 2 ^ (-k).toNat), Rat.natCast_mul, ← hqd]
+    generalize ((2 ^ (-k).toNat : Nat) : Rat) = P at *
+    generalize pow2 k = Q at *
+    constructor
+    · intro h1
+      have a1 := Rat.mul_lt_mul_of_pos_right h1 hd
+      have a2 := Rat.mul_lt_mul_of_pos_right a1 hp
+      have e : Q * (d : Rat) * P = (d : Rat) := by
+        rw [Rat.mul_assoc, Rat.mul_comm (d : Rat), ← Rat.mul_assoc, hs, Rat.one_mul]
+      rwa [e] at a2
+    · intro h1
+      apply Rat.lt_of_mul_lt_mul_right (c := (d : Rat) * P) _ (Rat.le_of_lt (Rat.mul_pos hd hp))
+      have e : Q * ((d : Rat) * P) = (d : Rat) := by
+        rw [Rat.mul_comm (d : Rat), ← Rat.mul_assoc, hs, Rat.one_mul]
+      rw [e, ← Rat.mul_assoc]; exact h1
+
+/-- `ilog2 (n / d)` on integers (`n`, `d` need not be coprime) -/
+def ilog2ND (n d : Nat) : Int :=
+  let e : Int := (Nat.log2 n : Int) - (Nat.log2 d : Int)
+  if ltPow2 n d e then e - 1 else if ltPow2 n d (e + 1) then e else e + 1
+
+/-- `ilog2_spec` for a quotient that is not in lowest terms (same proof) -/
+theorem ilog2ND_spec {q : Rat} {n d : Nat} (hq : 0 < q) (hd0 : 0 < d) (hqd : q * (d : Rat) = (n : Rat)) :
+    pow2 (ilog2ND n d) ≤ q ∧ q < pow2 (ilog2ND n d + 1) := by
+  have hn0 : n ≠ 0 := by
+    intro h; subst h
+    have : (0 : Rat) < q * (d : Rat) := Rat.mul_pos hq (Rat.natCast_pos.2 hd0)
+    rw [hqd] at this; simp at this
+  have hdnz : d ≠ 0 := by omega
+  have hn1 := Nat.log2_self_le hn0
+  have hn2 := Nat.lt_log2_self (n := n)
+  have hd1 := Nat.log2_self_le hdnz
+  have hd2 := Nat.lt_log2_self (n := d)
+  have key0 : ∀ k, q < pow2 k ↔ ltPow2 n d k = true := by
+    intro k; rw [← lt_pow2_iff hd0 hqd k]; simp
+  unfold ilog2ND
+  simp only [← key0]
+  generalize hln : n.log2 = ln at *
+  generalize hld : d.log2 = ld at *
+  have cn1 : ((2 ^ ln : Nat) : Rat) ≤ (n : Rat) := Rat.natCast_le_natCast.2 hn1
+  have cn2 : (n : Rat) < ((2 ^ (ln + 1) : Nat) : Rat) := Rat.natCast_lt_natCast.2 hn2
+  have cd1 : ((2 ^ ld : Nat) : Rat) ≤ (d : Rat) := Rat.natCast_le_natCast.2 hd1
+  have cd2 : (d : Rat) < ((2 ^ (ld + 1) : Nat) : Rat) := Rat.natCast_lt_natCast.2 hd2
+  have pd : (0 : Rat) < ((2 ^ ld : Nat) : Rat) := Rat.natCast_pos.2 (Nat.pow_pos (by decide))
+  have key : pow2 ((ln : Int) - (ld : Int)) * ((2 ^ ld : Nat) : Rat) = ((2 ^ ln : Nat) : Rat) := by
+    have := pow2_add_nat ((ln : Int) - (ld : Int)) ld
+    rw [show (ln : Int) - (ld : Int) + (ld : Int) = (ln : Int) by omega, pow2_nat] at this
+    rw [this]; grind
+  have hup : q < pow2 ((ln : Int) - (ld : Int) + 1) := by
+    apply Rat.lt_of_mul_lt_mul_right (c := ((2 ^ ld : Nat) : Rat)) _ (Rat.le_of_lt pd)
+    rw [pow2_succ, Rat.mul_assoc, key]
+    have h1 : q * ((2 ^ ld : Nat) : Rat) ≤ q * (d : Rat) :=
+      Rat.mul_le_mul_of_nonneg_left cd1 (Rat.le_of_lt hq)
+    rw [Nat.pow_succ, Rat.natCast_mul] at cn2
+    grind
+  have hlo : pow2 ((ln : Int) - (ld : Int) - 1) ≤ q := by
+    apply Rat.le_of_mul_le_mul_right (c := ((2 ^ (ld+1) : Nat) : Rat)) _ (Rat.natCast_pos.2 (Nat.pow_pos (by decide)))
+    have h0 : pow2 ((ln : Int) - (ld : Int)) = 2 * pow2 ((ln : Int) - (ld : Int) - 1) := by
+      rw [← pow2_succ]; congr 1; omega
+    have h1 : q * (d : Rat) ≤ q * ((2 ^ (ld + 1) : Nat) : Rat) :=
+      Rat.mul_le_mul_of_nonneg_left (Rat.le_of_lt cd2) (Rat.le_of_lt hq)
+    rw [Nat.pow_succ, Rat.natCast_mul] at h1 ⊢
+    rw [h0] at key
+    rw [hqd] at h1
+    clear hup cd1 cd2 hd1 hd2 hn1 hn2 cn2 hqd h0 pd key0
+    generalize pow2 ((ln : Int) - (ld : Int) - 1) = P at *
+    generalize ((2 ^ ld : Nat) : Rat) = A at *
+    generalize ((2 ^ ln : Nat) : Rat) = L at *
+    have h2 : ((2 : Nat) : Rat) = 2 := by simp
+    rw [h2] at h1 ⊢
+    have : P * (A * 2) = L := by grind
+    grind
+  split
+  · rename_i h
+    refine ⟨hlo, ?_⟩
+    rw [show (ln : Int) - (ld : Int) - 1 + 1 = (ln : Int) - (ld : Int) by omega]; exact h
+  · rename_i h
+    exact ⟨Rat.not_lt.1 h, hup⟩
+
+theorem ilog2_unique {q : Rat} {e1 e2 : Int} (h1 : pow2 e1 ≤ q ∧ q < pow2 (e1 + 1))
+    (h2 : pow2 e2 ≤ q ∧ q < pow2 (e2 + 1)) : e1 = e2 := by
+  have a : e1 < e2 + 1 := lt_of_pow2_lt (by grind)
+  have b : e2 < e1 + 1 := lt_of_pow2_lt (by grind)
+  omega
+
+theorem ilog2_eq_ilog2ND {q : Rat} {n d : Nat} (hq : 0 < q) (hd0 : 0 < d) (hqd : q * (d : Rat) = (n : Rat)) :
+    ilog2 q = ilog2ND n d :=
+  ilog2_unique (ilog2_spec hq) (ilog2ND_spec hq hd0 hqd)
+
+/-- `roundPos (n / d)` on integers (`n`, `d` need not be coprime) -/
+def roundPosND (n d : Nat) : Rat :=
+  let e := ilog2ND n d
+  let e' := if e < -126 then -126 else e
+  let u := e' - 23
+  if u ≥ 0 then
+    ((shl (rneND n (shl d u.toNat)) u.toNat : Nat) : Rat)
+  else
+    let s := (-u).toNat
+    -- cancel the power of two common to `n · 2^s` and `d` (all of `2^s` when `d` is a power of two)
+    let g := min s (Nat.log2 d)
+    let d' := d >>> g
+    if shl d' g = d then mkDyadic (rneND (shl n (s - g)) d') s
+    else mkDyadic (rneND (shl n s) d) s
+
+theorem roundPos_eq_roundPosND {q : Rat} {n d : Nat} (hq : 0 < q) (hd : 0 < d) (hqd : q * (d : Rat) = (n : Rat)) :
+    roundPos q = roundPosND n d := by
+  unfold roundPos roundPosND
+  simp only [ilog2_eq_ilog2ND hq hd hqd, shl_eq]
+  generalize (if ilog2ND n d < -126 then -126 else ilog2ND n d) - 23 = u
+  have hcancel : (if (d >>> min (-u).toNat d.log2) <<< min (-u).toNat d.log2 = d then
+        mkDyadic (rneND (n <<< ((-u).toNat - min (-u).toNat d.log2)) (d >>> min (-u).toNat d.log2)) (-u).toNat
+      else mkDyadic (rneND (n <<< (-u).toNat) d) (-u).toNat) = mkDyadic (rneND (n <<< (-u).toNat) d) (-u).toNat := by
+    split
+    · rename_i hg
+      generalize hgg : min (-u).toNat d.log2 = g at hg
+      have hgs : g ≤ (-u).toNat := by omega
+      congr 1
+      conv => rhs; rw [← hg]
+      rw [Nat.shiftLeft_eq, Nat.shiftLeft_eq, Nat.shiftLeft_eq]
+      conv => rhs; rw [show (-u).toNat = ((-u).toNat - g) + g by omega, Nat.pow_add, ← Nat.mul_assoc]
+      rw [rneND_mul_right _ _ _ (Nat.pow_pos (by decide))]
+    · rfl
+  simp only [hcancel]
+  have hs := pow2_split u
+  by_cases h : u ≥ 0
+  · simp only [h, if_true] at hs ⊢
+    rw [show ((1 : Nat) : Rat) = 1 by simp, Rat.mul_one] at hs
+    have hp : (0 : Rat) < ((2 ^ u.toNat : Nat) : Rat) := Rat.natCast_pos.2 (Nat.pow_pos (by decide))
+    rw [hs, Nat.shiftLeft_eq, Nat.shiftLeft_eq]
+    have hx : q / ((2 ^ u.toNat : Nat) : Rat) * ((d * 2 ^ u.toNat : Nat) : Rat) = (n : Rat) := by
+      rw [Rat.natCast_mul, ← hqd]
+      generalize ((2 ^ u.toNat : Nat) : Rat) = P at *
+      rw [Rat.mul_comm (d : Rat), ← Rat.mul_assoc, Rat.div_mul_cancel (by grind)]
+    rw [rne_eq_rneND (Nat.mul_pos hd (Nat.pow_pos (by decide))) hx, Rat.intCast_natCast, Rat.natCast_mul]
+  · simp only [h, if_false] at hs ⊢
+    rw [show ((1 : Nat) : Rat) = 1 by simp] at hs
+    have hp : (0 : Rat) < ((2 ^ (-u).toNat : Nat) : Rat) := Rat.natCast_pos.2 (Nat.pow_pos (by decide))
+    rw [Nat.shiftLeft_eq, mkDyadic_eq]
+    have hx : q / pow2 u * (d : Rat) = ((n * 2 ^ (-u).toNat : Nat) : Rat) := by
+      rw [Rat.natCast_mul, ← hqd]
+      generalize ((2 ^ (-u).toNat : Nat) : Rat) = P at *
+      generalize pow2 u = Q at *
+      have hQ : Q⁻¹ = P := Rat.inv_eq_of_mul_eq_one hs
+      rw [Rat.div_def, hQ]; grind
+    rw [rne_eq_rneND hd hx, Rat.intCast_natCast]
+    generalize ((2 ^ (-u).toNat : Nat) : Rat) = P at *
+    generalize pow2 u = Q at *
+    have hP : P⁻¹ = Q := Rat.inv_eq_of_mul_eq_one (by rw [Rat.mul_comm]; exact hs)
+    rw [Rat.div_def, hP]
+
+/-- `round32 (N / D)` on integers: exit for the exactly representable integers, integer arithmetic
+(no `Rat` operation, no gcd) otherwise -/
+def roundDiv (N : Int) (D : Nat) : Rat :=
+  if D = 1 ∧ N.natAbs < 16777216 then (N : Rat)
+  else if N = 0 then 0 else if N < 0 then - roundPosND (-N).toNat D else roundPosND N.toNat D
+
+theorem round32_div (N : Int) {D : Nat} (hD : 0 < D) : round32 ((N : Rat) / (D : Rat)) = roundDiv N D := by
+  have hDq : (0 : Rat) < (D : Rat) := Rat.natCast_pos.2 hD
+  have hDne : (D : Rat) ≠ 0 := by grind
+  unfold roundDiv
+  split
+  · rename_i h
+    rw [h.1, show ((1 : Nat) : Rat) = 1 by simp]
+    have e : (N : Rat) / 1 = (N : Rat) := by grind
+    rw [e]; exact round32_intCast (by omega) (by omega)
+  · generalize hq : (N : Rat) / (D : Rat) = q
+    have hqd : q * (D : Rat) = (N : Rat) := by rw [← hq]; exact Rat.div_mul_cancel hDne
+    unfold round32
+    by_cases h0 : N = 0
+    · subst h0
+      have : q = 0 := by rw [← hq]; simp [Rat.div_def]
+      simp [this]
+    · by_cases hneg : N < 0
+      · have hN : (N : Rat) < 0 := by
+          have := Rat.intCast_lt_intCast.2 hneg; simpa using this
+        have hq0 : q < 0 := by
+          apply Decidable.byContradiction; intro hc
+          have := Rat.mul_nonneg (Rat.not_lt.1 hc) (Rat.le_of_lt hDq)
+          grind
+        have hq0' : ¬ q = 0 := by grind
+        simp only [h0, hneg, hq0, hq0', if_true, if_false]
+        congr 1
+        apply roundPos_eq_roundPosND (by grind) hD
+        rw [Rat.neg_mul, hqd, ← Rat.intCast_neg, ← Rat.intCast_natCast]
+        congr 1; omega
+      · have hpos : 0 < N := by omega
+        have hN : (0 : Rat) < (N : Rat) := by
+          have := Rat.intCast_lt_intCast.2 hpos; simpa using this
+        have hq0 : 0 < q := by
+          apply Decidable.byContradiction; intro hc
+          have hc' : q ≤ 0 := Rat.not_lt.1 hc
+          have : q * (D : Rat) ≤ 0 := by
+            have := Rat.mul_le_mul_of_nonneg_right hc' (Rat.le_of_lt hDq)
+            simpa using this
+          grind
+        have hq1 : ¬ q < 0 := by grind
+        have hq2 : ¬ q = 0 := by grind
+        simp only [h0, hneg, hq1, hq2, if_false]
+        apply roundPos_eq_roundPosND hq0 hD
+        rw [hqd, ← Rat.intCast_natCast]
+        congr 1; omega
+
+theorem num_div_den (q : Rat) : (q.num : Rat) / (q.den : Rat) = q := by
+  rw [← Rat.mkRat_eq_div, Rat.mkRat_self]
+
+theorem den_pos (q : Rat) : 0 < q.den := Nat.pos_of_ne_zero q.den_nz
+
+def round32Fast (q : Rat) : Rat := roundDiv q.num q.den
+
+@[csimp] theorem round32_eq_round32Fast : @round32 = @round32Fast := by
+  funext q
+  unfold round32Fast
+  rw [← round32_div q.num (den_pos q), num_div_den]
+
+
+/-! ### the operations: numerators and denominators are combined without normalising -/
+
+def mulFast (a b : Rat) : Rat := roundDiv (a.num * b.num) (a.den * b.den)
+
+@[csimp] theorem mul_eq_mulFast : @mul = @mulFast := by
+  funext a b
+  unfold mul mulFast
+  rw [← round32_div _ (Nat.mul_pos (den_pos a) (den_pos b))]
+  congr 1
+  have ha := num_div_den a; have hb := num_div_den b
+  have da : (0 : Rat) < (a.den : Rat) := Rat.natCast_pos.2 (den_pos a)
+  have db : (0 : Rat) < (b.den : Rat) := Rat.natCast_pos.2 (den_pos b)
+  rw [Rat.intCast_mul, Rat.natCast_mul]
+  generalize (a.num : Rat) = x at *; generalize (a.den : Rat) = y at *
+  generalize (b.num : Rat) = z at *; generalize (b.den : Rat) = w at *
+  rw [← ha, ← hb]
+  have : y ≠ 0 := by grind
+  have : w ≠ 0 := by grind
+  grind
+
+def addFast (a b : Rat) : Rat := roundDiv (a.num * b.den + b.num * a.den) (a.den * b.den)
+
+@[csimp] theorem add_eq_addFast : @add = @addFast := by
+  funext a b
+  unfold add addFast
+  rw [← round32_div _ (Nat.mul_pos (den_pos a) (den_pos b))]
+  congr 1
+  have ha := num_div_den a; have hb := num_div_den b
+  have da : (0 : Rat) < (a.den : Rat) := Rat.natCast_pos.2 (den_pos a)
+  have db : (0 : Rat) < (b.den : Rat) := Rat.natCast_pos.2 (den_pos b)
+  rw [Rat.intCast_add, Rat.intCast_mul, Rat.intCast_mul, Rat.natCast_mul, Rat.intCast_natCast, Rat.intCast_natCast]
+  generalize (a.num : Rat) = x at *; generalize (a.den : Rat) = y at *
+  generalize (b.num : Rat) = z at *; generalize (b.den : Rat) = w at *
+  rw [← ha, ← hb]
+  have : y ≠ 0 := by grind
+  have : w ≠ 0 := by grind
+  grind
+
+def subFast (a b : Rat) : Rat := roundDiv (a.num * b.den - b.num * a.den) (a.den * b.den)
+
+@[csimp] theorem sub_eq_subFast : @sub = @subFast := by
+  funext a b
+  unfold sub subFast
+  rw [← round32_div _ (Nat.mul_pos (den_pos a) (den_pos b))]
+  congr 1
+  have ha := num_div_den a; have hb := num_div_den b
+  have da : (0 : Rat) < (a.den : Rat) := Rat.natCast_pos.2 (den_pos a)
+  have db : (0 : Rat) < (b.den : Rat) := Rat.natCast_pos.2 (den_pos b)
+  rw [Rat.intCast_sub, Rat.intCast_mul, Rat.intCast_mul, Rat.natCast_mul, Rat.intCast_natCast, Rat.intCast_natCast]
+  generalize (a.num : Rat) = x at *; generalize (a.den : Rat) = y at *
+  generalize (b.num : Rat) = z at *; generalize (b.den : Rat) = w at *
+  rw [← ha, ← hb]
+  have : y ≠ 0 := by grind
+  have : w ≠ 0 := by grind
+  grind
+
+def divFast (a b : Rat) : Rat :=
+  if b.num = 0 then 0
+  else if b.num < 0 then roundDiv (-(a.num * b.den)) (a.den * (-b.num).toNat)
+  else roundDiv (a.num * b.den) (a.den * b.num.toNat)
+
+@[csimp] theorem div_eq_divFast : @div = @divFast := by
+  funext a b
+  unfold div divFast
+  have ha := num_div_den a; have hb := num_div_den b
+  have da : (0 : Rat) < (a.den : Rat) := Rat.natCast_pos.2 (den_pos a)
+  have db : (0 : Rat) < (b.den : Rat) := Rat.natCast_pos.2 (den_pos b)
+  by_cases h0 : b.num = 0
+  · have : b = 0 := by rw [← hb, h0]; simp [Rat.div_def]
+    simp [this, Rat.div_def, round32]
+  · simp only [h0, if_false]
+    by_cases hneg : b.num < 0
+    · simp only [hneg, if_true]
+      have hp : 0 < (-b.num).toNat := by omega
+      rw [← round32_div _ (Nat.mul_pos (den_pos a) hp)]
+      congr 1
+      have e : (((-b.num).toNat : Nat) : Rat) = - (b.num : Rat) := by
+        rw [← Rat.intCast_natCast, ← Rat.intCast_neg]; congr 1; omega
+      have hbn : (b.num : Rat) < 0 := by
+        have := Rat.intCast_lt_intCast.2 hneg; simpa using this
+      rw [Rat.intCast_neg, Rat.intCast_mul, Rat.natCast_mul, Rat.intCast_natCast, e]
+      generalize (a.num : Rat) = x at *; generalize (a.den : Rat) = y at *
+      generalize (b.num : Rat) = z at *; generalize (b.den : Rat) = w at *
+      rw [← ha, ← hb]
+      have : y ≠ 0 := by grind
+      have : w ≠ 0 := by grind
+      have : z ≠ 0 := by grind
+      grind
+    · simp only [hneg, if_false]
+      have hp : 0 < b.num.toNat := by omega
+      rw [← round32_div _ (Nat.mul_pos (den_pos a) hp)]
+      congr 1
+      have e : ((b.num.toNat : Nat) : Rat) = (b.num : Rat) := by
+        rw [← Rat.intCast_natCast]; congr 1; omega
+      have hbn : (0 : Rat) < (b.num : Rat) := by
+        have := Rat.intCast_lt_intCast.2 (show 0 < b.num by omega); simpa using this
+      rw [Rat.intCast_mul, Rat.natCast_mul, Rat.intCast_natCast, e]
+      generalize (a.num : Rat) = x at *; generalize (a.den : Rat) = y at *
+      generalize (b.num : Rat) = z at *; generalize (b.den : Rat) = w at *
+      rw [← ha, ← hb]
+      have : y ≠ 0 := by grind
+      have : w ≠ 0 := by grind
+      have : z ≠ 0 := by grind
+      grind
+
+def ofIntFast (i : Int) : Rat := roundDiv i 1
+
+@[csimp] theorem ofInt_eq_ofIntFast : @ofInt = @ofIntFast := by
+  funext i
+  unfold ofInt ofIntFast
+  rw [← round32_div i (by decide)]
+  congr 1
+  rw [show ((1 : Nat) : Rat) = 1 by simp]; grind
+
+end Wee.F32.Fast
